@@ -25,6 +25,15 @@ QUAL_REQUIRED = {
 
 SAMPLE = """\
 #include <stdint.h>
+#ifndef XOBJ_TYPEDEF_GridInfo
+#define XOBJ_TYPEDEF_GridInfo
+typedef struct GridInfo_s * GridInfo;
+#endif
+#ifndef XOBJ_TYPEDEF_Grid
+#define XOBJ_TYPEDEF_Grid
+typedef struct Grid_s * Grid;
+ int Grid_len(Grid obj){ return 3; }
+#endif
 typedef long foo_t; //only_for_context opencl
 typedef int bar_t; //only_for_context cuda cpu_serial
 //include_file inc_gpu.h for_context opencl cuda
@@ -50,7 +59,19 @@ void grid(const int nx, const int ny, /*gpuglmem*/ double* hits){
     hits[cell] += 1;
   //end_vectorize
 }
+/*gpukern*/
+void forces(const int n_forces, const int n_alloc, /*gpuglmem*/ double* ff){
+  int iforce = 0; //vectorize_over iforce n_forces
+    ff[iforce] = 1;
+  //end_vectorize
+  for (int slot=0; slot<n_alloc; slot++){ //vectorize_over slot n_forces
+    ff[slot] += 2;
+  }//end_vectorize
+}
 """
+# (the last two blocks carry TEXT in front of the annotation -- the stand-in declaration / hand-written loop header
+# that keeps the unspecialised source valid C.  The annotation alone says what runs: index and bound; the stand-in is
+# dropped on every target.  Seeded C16-i kept a stand-in containing the letters "for" as the CPU loop.)
 # line classes are crossed with their ORIGIN: the annotated lines of inc_all.h are the same classes as in
 # the top-level sample but arrive through the include splice (seeded change C16-a resolved the
 # context restriction before the splice, so restricted lines of an included file stayed active)
@@ -127,7 +148,9 @@ def s1(cx):
         lines = out.split("\n")
         txt = out
         # ---- S7 pass-through of unannotated lines
-        for plain in ("#include <stdint.h>", "  int aa = nn*3 + 1;   /* plain line */", "  for (int kk=0; kk<3; kk++){ aa += kk; }", "    yout[ii] = twice(xin, ii) + aa;", "    yout[jj] += 1;", "}",
+        # (guarded API blocks of two classes, the name of the later one a PREFIX of the earlier one's: the specialiser does
+        # not interpret preprocessor guards -- seeded C15-i dropped "repeated" blocks of the device forms by a substring test)
+        for plain in ("#include <stdint.h>", "typedef struct GridInfo_s * GridInfo;", "#ifndef XOBJ_TYPEDEF_Grid", "#define XOBJ_TYPEDEF_Grid", "typedef struct Grid_s * Grid;", " int Grid_len(Grid obj){ return 3; }", "  int aa = nn*3 + 1;   /* plain line */", "  for (int kk=0; kk<3; kk++){ aa += kk; }", "    yout[ii] = twice(xin, ii) + aa;", "    yout[jj] += 1;", "}",
                       "#define IN_ALL 1", "    qq[kk] = 0;", "} /* end incfun */"):
             cx.check(plain in lines, f, construct=f"[{tgt}] plain line `{plain.strip()}`", detail="unannotated text passes through unchanged", bad_detail="an unannotated line was altered or dropped", sub="S7")
         # ---- S6 only_for_context
@@ -147,10 +170,10 @@ def s1(cx):
         cx.check(nsnip == want_snip, f, construct=f"[{tgt}] a file requested by two //include_file lines ({want_snip} of them naming {tgt})", detail="spliced once per request that names the target", bad_detail=f"spliced {nsnip} time(s), {want_snip} requests name {tgt}: the text is missing where the other request stands", sub="S9")
         cx.check(not any("//include_file" in l and not l.lstrip().startswith("//") for l in lines) and "int gpu_only;" in lines if tgt in ("opencl", "cuda") else True, f, construct=f"[{tgt}] included lines verbatim", detail="included file content reaches the output", bad_detail="included file content is missing", sub="S9")
         # ---- vectorised blocks (two in the top-level source, one arriving through the include splice)
-        is_plain = lambda l: l == "  for (int kk=0; kk<3; kk++){ aa += kk; }" or l.startswith("void incfun(") or l.startswith("void grid(")
+        is_plain = lambda l: l == "  for (int kk=0; kk<3; kk++){ aa += kk; }" or l.startswith("void incfun(") or l.startswith("void grid(") or l.startswith("void forces(")
         blocks = []
         # (the bound of the last block is an expression: the annotation is `//vectorize_over <index> <bound>`)
-        for var, lim, stmt in (("ii", "nn", "yout[ii]"), ("jj", "nn", "yout[jj]"), ("kk", "mm", "qq[kk]"), ("cell", "nx*ny", "hits[cell]")):
+        for var, lim, stmt in (("ii", "nn", "yout[ii]"), ("jj", "nn", "yout[jj]"), ("kk", "mm", "qq[kk]"), ("cell", "nx*ny", "hits[cell]"), ("iforce", "n_forces", "ff[iforce]"), ("slot", "n_forces", "ff[slot]")):
             k = next((n for n, l in enumerate(lines) if stmt in l), None)
             cx.need(k is not None, f"[{tgt}] body statement {stmt} not found in the specialised sample")
             j = k - 1
